@@ -82,6 +82,12 @@ def run(chk, tier):
         g = progen.ProgGen(((chk.seed + 5) % 1000003) * 100003 + i, emph=("store",))
         g.feat |= {"arr", "rec", "fun", "un"}
         eprogs.append(g.program("s%d" % i))
+    # ... and one in which effectful functions are called often (plain generation leaves many of them dead code), with
+    # guarded halts and assertions (kept at the levels C01 runs) in their bodies
+    for i in range(ne // 2):
+        g = progen.ProgGen(((chk.seed + 9) % 1000003) * 100003 + i, emph=("call", "halt"))
+        g.feat |= {"fun", "halt", "assert"}
+        eprogs.append(g.program("k%d" % i))
     fame = progcheck.Family(chk, eprogs, "exceptions", workers=vlib.NCPU, timeout=1500)
     for s_, c in fame.status_count.items():
         per["exn:" + s_] = c
